@@ -22,7 +22,7 @@ RULE = ("4 of 5 runs: battery bench without noise (ideal, two-stage continuous, 
         "pre-state: T = T/2 twice, monotone in pilot and in T, zero pilot, reset; 1 of 5: every Battery.charge executed "
         "inside a whole simulation; non-trivial = a call crosses the (pilot-dependent) transition SoC; distinct = distinct "
         "(class, calc, crossing pattern, pilot regime, length)")
-PROBES = ["charged_at_another_voltage", "crossing_call", "above_transition_call", "below_transition_call", "pilot_capped_by_max", "fill_capped",
+PROBES = ["calculation_method_switched", "charged_at_another_voltage", "crossing_call", "above_transition_call", "below_transition_call", "pilot_capped_by_max", "fill_capped",
           "rk4_crosscheck", "half_twice", "monotone_pilot", "monotone_T", "zero_pilot", "reset", "in_sim_calls", "json_restart"]
 FAULT_DIMENSION = "none - state distribution only (pure function of state and arguments)"
 REAL_VS_STUB = "real: Battery, Linear2StageBattery (+ EV/EVSE/Simulator in the in-simulation layer); ours: closed-form / RK4 reference"
@@ -93,7 +93,7 @@ def check(sc):
     if "ops" not in sc:
         return check_world(sc)
     out = Outcome()
-    b = sc["battery"]
+    b = dict(sc["battery"])          # (a copy: the calculation method may be switched during the sequence)
     cap, mp, V = b["capacity"], b["max_power"], sc["voltage"]
     ts = b.get("transition_soc")
     cont = b["type"] == "Linear2Stage" and b.get("calc", "continuous") == "continuous"
@@ -109,6 +109,15 @@ def check(sc):
 
     def on_call(i, op, pre, post, rate, batt):
         if rate is None and op["op"] in ("reset_to", "reset_refused"):
+            return
+        if rate is None and op["op"] == "switch_calc":
+            nonlocal cont
+            if b["type"] == "Linear2Stage":
+                b["calc"] = "stepwise" if b.get("calc", "continuous") == "continuous" else "continuous"
+                cont = b["calc"] == "continuous"
+                out.probe("calculation_method_switched")
+                if post != pre:
+                    out.add("C14/switch_changed_state", "call %d: switching charge_calculation changed (charge, power) %s -> %s" % (i, pre, post))
             return
         if rate is None and op["op"] == "roundtrip":
             out.probe("json_restart")
@@ -169,8 +178,8 @@ def check(sc):
         with warnings.catch_warnings():
             warnings.simplefilter("ignore")
             from ..build import build_battery
-            fresh = build_battery(b)
-            used = build_battery(b)
+            fresh = build_battery(sc["battery"])
+            used = build_battery(sc["battery"])
             for op in sc["ops"][:5]:
                 if op["op"] == "charge":
                     used.charge(op["pilot"], op.get("voltage", sc["voltage"]), op["period"])
